@@ -423,6 +423,22 @@ def r5_check_order(ctx):
     ctx.check(kinds == {"required", "optional"}, fn,
               "required and optional order both checked",
               f"check_order checks only {sorted(str(k) for k in kinds)}")
+    # every declared precursor is looked at: the loops over the declared
+    # steps are never left early
+    for inner in walk_no_nested(fn, False):
+        if isinstance(inner, ast.For) and inner is not lp and any(
+                k in norm(inner.iter) for k in ("steps_optional",
+                                                "steps_required")):
+            early = [x for x in ast.walk(inner)
+                     if isinstance(x, (ast.Break, ast.Return))]
+            ctx.check(not early, early[0] if early else inner,
+                      f"loop over {norm(inner.iter)[-30:]} visits every "
+                      "declared step",
+                      f"check_order leaves the loop over "
+                      f"`{norm(inner.iter)}` early: the precursors declared "
+                      f"after that point are never compared with the "
+                      f"position of the step (e.g. an absent optional step "
+                      f"hides a misplaced one behind it)")
     # optional: only those present
     for n in walk_no_nested(fn, False):
         if isinstance(n, ast.Call) and isinstance(n.func, ast.Attribute) and \
